@@ -419,6 +419,22 @@ impl<I: Iterator> Iterator for Probe<I> {
     }
 
     fn size_hint(&self) -> (usize, Option<usize>) {
+        // a read of the wrapped iterator's state: it must neither overlap with a `next` running
+        // on another thread nor be unordered with it (added after seeded change C07-r2)
+        if let Some(me) = sim::tid() {
+            {
+                let _p = alloc::pause();
+                let seq = sim::next_seq();
+                let mut p = probe();
+                if let Some(other) = p.inside {
+                    if other != me {
+                        p.overlaps.push((other, me, seq));
+                    }
+                }
+            }
+            sim::na_access(PROBE_OBJ, "wrapped-iterator.size_hint");
+            sim::sched_point("probe-size-hint");
+        }
         match self.hint {
             Hint::Exact => (self.remaining, Some(self.remaining)),
             Hint::Inexact => (0, Some(self.remaining)),
